@@ -39,6 +39,7 @@ F_OR = 'or-keeps-one-sided-factor'
 F_EQJOIN = 'equality-join-condition-unregistered'
 F_OUTER = 'outer-join-filter-pushdown'
 F_REF = 'reference-shares-table-segment'
+F_LAZYEQ = 'lazy-columns-merge-equal-field-tables'
 
 # family, Depth, MaxRows, WithNull, tables of the universe
 QUICK = [('where', 1, 1, True, 2), ('on', 1, 2, False, 2), ('self', 1, 2, False, 2), ('three', 1, 1, True, 3)]
@@ -120,7 +121,7 @@ def failures(verdict):
     elif drift:
         model = set()          # the as-is model predicts a crash (or the code crashed): nothing predicted about hints
     else:
-        model = real - {'backend-differs'}
+        model = real & {'unscoped', 'incomplete', 'unsafe'}   # equal hints: the model breaks the same hint clauses
     if model:
         model.add('backend-differs')   # a back-end honouring broken hints may return other rows
     _ = crash
@@ -158,12 +159,23 @@ def finding_class(ast, kinds):
     return None
 
 
+def equal_field_tables(ast):
+    """Two different tables with identical field lists occur in the statement."""
+    tabs = {}
+    for _, node in relgen.occurrences(ast):
+        tabs.setdefault(json.dumps(node['cols']), set()).add(node['name'])
+    return any(len(names) > 1 for names in tabs.values())
+
+
 def report(chk, ast, verdict, where, extra):
     real, model = failures(verdict)
     if not real:
         return True
+    if 'lazy-columns-incomplete' in real and equal_field_tables(ast):
+        model = model | {'lazy-columns-incomplete'}     # explained by the table equality defect (C08), see the finding
     unexplained = real - model
-    finding = None if unexplained else finding_class(ast, real)
+    finding = None if unexplained else (F_LAZYEQ if real == {'lazy-columns-incomplete'}
+                                         else finding_class(ast, real - {'lazy-columns-incomplete'}))
     what = f'{where}: hints of {relgen.show(ast)[:240]} are {"/".join(sorted(real))}' + \
         (f' (the as-is model predicts only {sorted(model) or "safe hints"})' if unexplained else '')
     chk.fail(what, dict(extra, ast=ast, verdict=verdict, clauses=sorted(real), as_is_clauses=sorted(model)), finding=finding)
